@@ -21,7 +21,7 @@ inductive Step : State → Event → State → Prop
   | consumeAccept (s : State) (b : Batch) (bs : List Batch) : s.rpc = .decoded → s.batches = b :: bs →
       Step s (.consume .accept) { s with batches := { b with out := .accept } :: bs, rpc := .needAck b.to }
   | consumePerm (s : State) (b : Batch) (bs : List Batch) : s.rpc = .decoded → s.batches = b :: bs →
-      Step s (.consume .perm) { s with batches := { b with out := .perm } :: bs, rpc := .needBad b.from_ b.to }
+      Step s (.consume .perm) { s with batches := { b with out := .perm } :: bs, rpc := .needBad (b.from_ + 1) b.to }
   | consumeTrans (s : State) (b : Batch) (bs : List Batch) : s.rpc = .decoded → s.batches = b :: bs →
       Step s (.consume .trans) { s with batches := { b with out := .trans } :: bs, rpc := .exited, stopReq := true }
   | schedAck (s : State) (t : Nat) : s.rpc = .needAck t → Step s .schedAck { s with nextAck := t, rpc := .top }
@@ -151,11 +151,11 @@ def HeadOK (s : State) : Prop :=
   | .await => AllDone s.batches
   | .decoded => (s.batches.head?).map (·.out) = some .pending
   | .needAck t => (s.batches.head?).map (fun b => (b.out, b.to)) = some (.accept, t)
-  | .needBad f t => (s.batches.head?).map (fun b => (b.out, b.from_, b.to)) = some (.perm, f, t)
+  | .needBad f t => (s.batches.head?).map (fun b => (b.out, b.from_ + 1, b.to)) = some (.perm, f, t)
   | .exited => True
 
 theorem permRanges_cons (b : Batch) (bs : List Batch) :
-    permRanges (b :: bs) = permRanges bs ++ (if b.out = .perm then [(b.from_, b.to)] else []) := by
+    permRanges (b :: bs) = permRanges bs ++ (if b.out = .perm then [(b.from_ + 1, b.to)] else []) := by
   simp only [permRanges, List.reverse_cons, List.filter_append, List.map_append]
   by_cases h : b.out = .perm <;> simp [h]
 
@@ -176,7 +176,7 @@ structure Inv (s : State) : Prop where
   infl_le : ∀ x ∈ inflight s, x.2 ≤ low s.batches
   comp : ∀ a rs, (s.qpc = .composing a rs ∨ s.qpc = .sending a rs true) → ∃ x ∈ rs, x.2 = a
   tickSending : ∀ a rs, s.qpc = .sending a rs false → rs = [] ∧ a = s.lastAcked
-  rpcBad_ge : ∀ x ∈ rpcBad s, s.nextAck ≤ x.1
+  rpcBad_ge : ∀ x ∈ rpcBad s, s.nextAck < x.1
   allOk : s.broken = false → ∀ r ∈ s.resps, r.ok = true
   qlen : s.queue.length ≤ badDataCap
   stopR : s.stopReq = true ↔ s.rpc = .exited
@@ -220,11 +220,17 @@ theorem low_needAck {s : State} {t : Nat} (hi : Inv s) (hr : s.rpc = .needAck t)
   cases hb : s.batches <;> simp_all [HeadOK, low]
 
 theorem low_needBad {s : State} {f t : Nat} (hi : Inv s) (hr : s.rpc = .needBad f t) :
-    low s.batches = t ∧ f < t := by
+    low s.batches = t ∧ f ≤ t := by
   have hh := hi.head
   have hc := hi.chain
-  cases hb : s.batches <;> simp_all [HeadOK, low, Chain]
-  omega
+  cases hb : s.batches with
+  | nil => simp_all [HeadOK]
+  | cons hd tl =>
+    simp [HeadOK, hr, hb] at hh
+    simp [hb, Chain] at hc
+    obtain ⟨_, hp, hf, ht⟩ := hh
+    simp [low, hp]
+    omega
 
 /-- a pending head batch starts at `low` -/
 theorem low_decoded {s : State} {b : Batch} {bs : List Batch} (hi : Inv s) (hr : s.rpc = .decoded)
@@ -333,7 +339,7 @@ theorem tickSending_step {s s' : State} {e : Event} (hi : Inv s) (h : Step s e s
   all_goals exact h1
 
 theorem rpcBad_step {s s' : State} {e : Event} (hi : Inv s) (h : Step s e s') :
-    ∀ x ∈ rpcBad s', s'.nextAck ≤ x.1 := by
+    ∀ x ∈ rpcBad s', s'.nextAck < x.1 := by
   have h1 := hi.rpcBad_ge
   have h2 := hi.nextAck_le
   cases h
@@ -380,7 +386,7 @@ theorem inv_run : ∀ (evs : List Event) (s s' : State), Inv s → run s evs = s
 /-! ### order of the bad-data ledger -/
 
 theorem permRanges_bounds : ∀ (bs : List Batch) (d : Nat), Chain bs d →
-    ∀ x ∈ permRanges bs, x.1 < x.2 ∧ x.2 ≤ d
+    ∀ x ∈ permRanges bs, 0 < x.1 ∧ x.1 ≤ x.2 ∧ x.2 ≤ d
   | [], d, _, x, hx => by simp [permRanges] at hx
   | b :: bs, d, h, x, hx => by
     simp only [Chain] at h
@@ -393,7 +399,7 @@ theorem permRanges_bounds : ∀ (bs : List Batch) (d : Nat), Chain bs d →
       · simp [hp] at hx
 
 theorem permRanges_sorted : ∀ (bs : List Batch) (d : Nat), Chain bs d →
-    (permRanges bs).Pairwise (fun x y => x.2 ≤ y.1)
+    (permRanges bs).Pairwise (fun x y => x.2 < y.1)
   | [], d, _ => by simp [permRanges]
   | b :: bs, d, h => by
     simp only [Chain] at h
@@ -403,21 +409,22 @@ theorem permRanges_sorted : ∀ (bs : List Batch) (d : Nat), Chain bs d →
     · intro x hx y hy
       by_cases hp : b.out = .perm
       · simp [hp] at hy; subst hy
-        exact (permRanges_bounds bs _ h.2.2 x hx).2
+        have := (permRanges_bounds bs _ h.2.2 x hx).2.2
+        simp; omega
       · simp [hp] at hy
 
 theorem pending_sorted {s : State} (hi : Inv s) :
-    (pendingBad s).Pairwise (fun x y => x.2 ≤ y.1) ∧ ∀ x ∈ pendingBad s, x.1 < x.2 := by
+    (pendingBad s).Pairwise (fun x y => x.2 < y.1) ∧ ∀ x ∈ pendingBad s, x.1 ≤ x.2 := by
   have hs := permRanges_sorted _ _ hi.chain
   have hb := permRanges_bounds _ _ hi.chain
   rw [← hi.ledger] at hs hb
   rw [List.pairwise_append] at hs
-  exact ⟨hs.2.1, fun x hx => (hb x (List.mem_append.mpr (Or.inr hx))).1⟩
+  exact ⟨hs.2.1, fun x hx => (hb x (List.mem_append.mpr (Or.inr hx))).2.1⟩
 
 /-! ### invariants of runs in which no tick fires while bad data waits in the channel -/
 
 structure InvT (s : State) : Prop where
-  pend_ge : ∀ x ∈ pendingBad s, s.lastAcked ≤ x.1
+  pend_ge : ∀ x ∈ pendingBad s, s.lastAcked < x.1
   acks_le : ∀ r ∈ s.resps, r.ok = true → r.ack ≤ s.lastAcked
   sorted : (acks s).Pairwise (· ≤ ·)
 
@@ -437,16 +444,16 @@ theorem sendAck_ge {s : State} {a : Nat} {rs : List Range} {bad : Bool} (hi : In
 
 /-- apart from `consume perm`, no event adds a range to the pending bad data -/
 theorem pend_mem_step {s s' : State} {e : Event} (h : Step s e s') (x : Range) (hx : x ∈ pendingBad s') :
-    x ∈ pendingBad s ∨ (∃ b bs, s.rpc = .decoded ∧ s.batches = b :: bs ∧ x = (b.from_, b.to)) := by
+    x ∈ pendingBad s ∨ (∃ b bs, s.rpc = .decoded ∧ s.batches = b :: bs ∧ x = (b.from_ + 1, b.to)) := by
   cases h <;> simp_all [pendingBad, inflight, rpcBad] <;> grind
 
 theorem pend_step {s s' : State} {e : Event} (hi : Inv s) (ht : InvT s)
-    (hc : e = .tick → s.queue = []) (h : Step s e s') : ∀ x ∈ pendingBad s', s'.lastAcked ≤ x.1 := by
+    (hc : e = .tick → s.queue = []) (h : Step s e s') : ∀ x ∈ pendingBad s', s'.lastAcked < x.1 := by
   have h1 := ht.pend_ge
   intro x hx
   have hmem := pend_mem_step h x hx
   -- the new range of a `consume perm` starts at `low`
-  have hnew : (∃ b bs, s.rpc = .decoded ∧ s.batches = b :: bs ∧ x = (b.from_, b.to)) → s.lastAcked ≤ x.1 := by
+  have hnew : (∃ b bs, s.rpc = .decoded ∧ s.batches = b :: bs ∧ x = (b.from_ + 1, b.to)) → s.lastAcked < x.1 := by
     rintro ⟨b, bs, hr, hb, rfl⟩
     have := (low_decoded hi hr hb).1
     have := hi.lastAcked_le
@@ -547,25 +554,25 @@ theorem invT_run : ∀ (evs : List Event) (s s' : State), Inv s → InvT s → T
 /-! ### the ledger counts every permanently rejected batch once -/
 
 theorem mem_permRanges {bs : List Batch} {b : Batch} (hb : b ∈ bs) (hp : b.out = .perm) :
-    (b.from_, b.to) ∈ permRanges bs := by
+    (b.from_ + 1, b.to) ∈ permRanges bs := by
   simp only [permRanges, List.mem_map, List.mem_filter, List.mem_reverse]
   exact ⟨b, ⟨hb, by simp [hp]⟩, rfl⟩
 
 theorem of_mem_permRanges {bs : List Batch} {x : Range} (hx : x ∈ permRanges bs) :
-    ∃ b ∈ bs, b.out = .perm ∧ x = (b.from_, b.to) := by
+    ∃ b ∈ bs, b.out = .perm ∧ x = (b.from_ + 1, b.to) := by
   simp only [permRanges, List.mem_map, List.mem_filter, List.mem_reverse] at hx
   obtain ⟨b, ⟨hb, hp⟩, rfl⟩ := hx
   exact ⟨b, hb, by simpa using hp, rfl⟩
 
 theorem count_permRanges : ∀ (bs : List Batch) (d : Nat), Chain bs d → ∀ b ∈ bs, b.out = .perm →
-    (permRanges bs).count (b.from_, b.to) = 1
+    (permRanges bs).count (b.from_ + 1, b.to) = 1
   | [], _, _, b, hb, _ => by simp at hb
   | hd :: tl, d, h, b, hb, hp => by
     simp only [Chain] at h
     rw [permRanges_cons, List.count_append]
     have hbd := permRanges_bounds tl _ h.2.2
     rcases List.mem_cons.mp hb with rfl | hb'
-    · have h0 : (permRanges tl).count (b.from_, b.to) = 0 := by
+    · have h0 : (permRanges tl).count (b.from_ + 1, b.to) = 0 := by
         apply List.count_eq_zero.mpr
         intro hm
         have := (hbd _ hm).2
@@ -573,7 +580,7 @@ theorem count_permRanges : ∀ (bs : List Batch) (d : Nat), Chain bs d → ∀ b
       simp [h0, hp]
     · have h1 := count_permRanges tl _ h.2.2 b hb' hp
       have hm := hbd _ (mem_permRanges hb' hp)
-      have h0 : (if hd.out = .perm then [(hd.from_, hd.to)] else []).count (b.from_, b.to) = 0 := by
+      have h0 : (if hd.out = .perm then [(hd.from_ + 1, hd.to)] else []).count (b.from_ + 1, b.to) = 0 := by
         apply List.count_eq_zero.mpr
         intro hmem
         by_cases hq : hd.out = .perm
@@ -628,7 +635,7 @@ theorem covered_sendOk {s s' : State} (hi : Inv s) (ht : InvT s) (h : Step s .se
     rcases hdone with hacc | hperm
     · exact Or.inl hacc
     · refine Or.inr ⟨hperm, ?_⟩
-      show (b.from_, b.to) ∈ ((((⟨a, rs, true⟩ : Resp) :: s.resps).reverse).filter (·.ok)).flatMap (·.ranges)
+      show (b.from_ + 1, b.to) ∈ ((((⟨a, rs, true⟩ : Resp) :: s.resps).reverse).filter (·.ok)).flatMap (·.ranges)
       rw [reportedOk_cons_ok, reportedOk_eq (hi.allOk hb)]
       have hm := mem_permRanges hbm hperm
       rw [← hi.ledger] at hm
@@ -639,7 +646,7 @@ theorem covered_sendOk {s s' : State} (hi : Inv s) (ht : InvT s) (h : Step s .se
       · exact List.mem_append.mpr (Or.inr hm)
       -- still waiting in the channel / about to be scheduled: then it starts at or above `a`
       exfalso
-      have hpm : (b.from_, b.to) ∈ pendingBad s := by
+      have hpm : (b.from_ + 1, b.to) ∈ pendingBad s := by
         simp only [pendingBad, inflight, hq, List.append_assoc]
         exact List.mem_append.mpr (Or.inr hm)
       cases bad
